@@ -1603,6 +1603,28 @@ def snake(name):
     return re.sub(r'(?<!^)(?=[A-Z])', '_', name).lower()
 
 
+def serde_variant_name(name, style):
+    """serde's `rename_all` for enum variants (variants are PascalCase in the source)"""
+    sn = snake(name)
+    if style is None or style == 'PascalCase':
+        return name
+    if style == 'snake_case':
+        return sn
+    if style == 'lowercase':
+        return name.lower()
+    if style == 'UPPERCASE':
+        return name.upper()
+    if style == 'camelCase':
+        return name[:1].lower() + name[1:]
+    if style == 'SCREAMING_SNAKE_CASE':
+        return sn.upper()
+    if style == 'kebab-case':
+        return sn.replace('_', '-')
+    if style == 'SCREAMING-KEBAB-CASE':
+        return sn.upper().replace('_', '-')
+    raise GenError('unknown serde rename_all style %r on ContractAction' % style)
+
+
 def special_impls(text, modpath, report):
     """D-f: bodies of `impl ToString for ContractAction` and `impl From<ContractError> for StdError`"""
     toks = lex(text)
@@ -1621,10 +1643,22 @@ def special_impls(text, modpath, report):
                 if not m:
                     raise GenError('ContractAction enum not found')
                 body = re.sub(r'//[^\n]*', '', m.group(1))
-                variants = [v.strip() for v in body.split(',') if v.strip()]
-                if not re.search(r'rename_all\s*=\s*"snake_case"', report['raw_common']):
-                    raise GenError('ContractAction is no longer #[serde(rename_all = "snake_case")]')
-                arms = '\n'.join('            ContractAction::%s => "%s"@,' % (v, snake(v)) for v in variants)
+                # the names are what serde writes: the enum's `rename_all` style (read from the attribute in the real
+                # source on this run) and per-variant `rename`
+                am = re.search(r'((?:#\[[^\]]*\]\s*)*)pub enum ContractAction\b', report['raw_common'])
+                style = None
+                if am:
+                    sm = re.search(r'rename_all\s*=\s*"([^"]+)"', am.group(1))
+                    style = sm.group(1) if sm else None
+                raw_enum = re.search(r'pub enum ContractAction\s*\{(.*?)\n\}', report['raw_common'], re.S)
+                renames = {}
+                if raw_enum:
+                    for rm in re.finditer(r'#\[serde\([^\]]*rename\s*=\s*"([^"]+)"[^\]]*\)\]\s*(\w+)', raw_enum.group(1)):
+                        renames[rm.group(2)] = rm.group(1)
+                variants = [re.sub(r'#\[[^\]]*\]', '', v).strip() for v in body.split(',')]
+                variants = [v for v in variants if v]
+                arms = '\n'.join('            ContractAction::%s => "%s"@,'
+                                 % (v, renames.get(v, serde_variant_name(v, style))) for v in variants)
                 rep = ('impl ContractAction {\n'
                        '    pub open spec fn name_spec(self) -> Seq<char> {\n        match self {\n%s\n        }\n    }\n'
                        '    #[verifier::external_body]\n'
